@@ -1,7 +1,7 @@
 (* C05 TTL cache: the property, clause by clause, over all keys, values, ttls, option combinations, clock readings,
    sizes and histories.  This file contains statements closed by `exact` only. *)
 From Coq Require Import ZArith List Bool.
-Require Import TTL TTLView C05_Hist C05_Frame C05_Mon C05_Rds C05_RdsAgree C05_Check C05_Refuted.
+Require Import TTL TTLView C05_Hist C05_Frame C05_Ttl C05_Mon C05_Rds C05_RdsAgree C05_Check C05_Refuted.
 Import ListNotations.
 Open Scope Z_scope.
 
@@ -66,6 +66,26 @@ Theorem c05_get_keeps : forall c k o now v, rag o = false -> upd o = None -> vie
 Proof. exact get_keeps. Qed.
 Theorem c05_get_frame : forall c k k' o now now', k' <> k -> view (fst (get c k o now)) k' now' = view c k' now'.
 Proof. exact get_frame. Qed.
+
+(* which deadline governs a key, at every later clock reading: update-ttl installs deadline (ttl or default) now ... *)
+Theorem c05_update_ttl : forall c k o now t v, view c k now = Some v -> rag o = false -> upd o = Some t ->
+  forall now', view (fst (get c k o now)) k now' = live_until (deadline (upd_ttl c t) now) v now'.
+Proof. exact update_ttl_spec. Qed.
+(* ... a Get without update-ttl leaves it alone ... *)
+Theorem c05_get_keeps_deadline : forall c k o now v, view c k now = Some v -> rag o = false -> upd o = None ->
+  forall now', view (fst (get c k o now)) k now' = view c k now'.
+Proof. exact get_keeps_deadline. Qed.
+(* ... keep-ttl on a live key: new value, old deadline ... *)
+Theorem c05_keep_ttl : forall c k v o now w, view c k now = Some w -> mne o = false -> keep o = true ->
+  forall now', view (fst (set c k v o now)) k now' = match view c k now' with Some _ => Some v | None => None end.
+Proof. exact keep_ttl_spec. Qed.
+(* ... a storing Set without keep-ttl, or any Set on a key that is not retrievable, installs deadline ttl now *)
+Theorem c05_set_deadline : forall c k v o now, 1 <= size c -> mne o = false -> keep o = false ->
+  forall now', view (fst (set c k v o now)) k now' = live_until (deadline (set_ttl c o) now) v now'.
+Proof. exact set_deadline_spec. Qed.
+Theorem c05_set_absent_deadline : forall c k v o now, 1 <= size c -> view c k now = None ->
+  forall now', view (fst (set c k v o now)) k now' = live_until (deadline (set_ttl c o) now) v now'.
+Proof. exact set_absent_deadline_spec. Qed.
 
 (* the frame of Set: a Set on k changes what is retrievable under at most one other key, the entry evicted from the cold end *)
 Theorem c05_set_frame : forall c k v o now, wf c -> forall k' now', k' <> k -> k' <> evictee c k ->
@@ -154,6 +174,11 @@ Print Assumptions c05_set_if_absent_succeeds_on_expired.
 Print Assumptions c05_one_shot.
 Print Assumptions c05_get_keeps.
 Print Assumptions c05_get_frame.
+Print Assumptions c05_update_ttl.
+Print Assumptions c05_get_keeps_deadline.
+Print Assumptions c05_keep_ttl.
+Print Assumptions c05_set_deadline.
+Print Assumptions c05_set_absent_deadline.
 Print Assumptions c05_set_frame.
 Print Assumptions c05_rds_satisfies_monitor.
 Print Assumptions c05_remove_gone.
